@@ -842,6 +842,12 @@ fn float_case<T: Fl, M: FLay<T>>(sub: &mut Sub, cfg: &Config, idx: u64, lay: &st
     let (l, r, b, t) = (l * ws, r * ws, b * ws, t * ws);
     let n = T::of(10f64.powf(rng.f64_in(-2.0, 1.5))).to64();
     let f = T::of(n * (1.1 + 10f64.powf(rng.f64_in(-1.0, 3.0)))).to64();
+    // "no far plane": the largest finite number as the far distance (added after seeded change C08_P).  Only
+    // the zero-to-one perspective families are judged there, with a near plane of at most 1: those are
+    // the constructors whose unmodified formulas (far/(near-far), far*near/(near-far)) stay finite; the
+    // negative-one-to-one ones form 2*far and are outside the working range at this input
+    let far_max = rng.chance(1, 16);
+    let (n, f) = if far_max { (T::of(n.min(1.0)).to64(), if T::EPS > 1e-10 { f32::MAX as f64 } else { f64::MAX }) } else { (n, f) };
     // field of view: a third narrow (telescopic, down to 3e-4 rad), the rest ordinary
     let fov = T::of(if rng.chance(1, 3) { 10f64.powf(rng.f64_in(-3.5, -0.5)) } else { rng.f64_in(0.1, 3.0) }).to64();
     let (w, h) = (T::of(rng.f64_in(0.2, 8.0)).to64(), T::of(rng.f64_in(0.2, 8.0)).to64());
@@ -853,6 +859,9 @@ fn float_case<T: Fl, M: FLay<T>>(sub: &mut Sub, cfg: &Config, idx: u64, lay: &st
     for (which, &(api, fam, hand, depth)) in FCTORS.iter().enumerate() {
         let inputs = || format!("planes l={:e} r={:e} b={:e} t={:e} near={:e} far={:e}; fov={:e} rad aspect={:e} (width {:e}, height {:e}) epsilon={:e}", l, r, b, t, n, f, fov, aspect, w, h, eps);
         sub.saw(api);
+        if far_max && !(depth == ZO && (2..=4).contains(&fam)) {
+            continue;
+        }
         let m = match guarded(|| M::build(which, pl, T::of(fov), T::of(aspect), T::of(w), T::of(h), T::of(n), T::of(f), T::of(eps))) {
             Ok(m) => m,
             Err(p) => {
@@ -883,6 +892,8 @@ fn float_case<T: Fl, M: FLay<T>>(sub: &mut Sub, cfg: &Config, idx: u64, lay: &st
         let mut pts: Vec<([f64; 3], [f64; 3], String)> = Vec::new();
         let dists: Vec<(f64, f64, &str)> = match fam {
             0 => vec![(n, f64::NAN, "near"), (f, f64::NAN, "far")],
+            // far = MAX: the far corners leave the range of the type; the depth curve is observed at 3*near instead
+            2 | 3 | 4 if far_max => vec![(n, nd, "near"), (n * 3.0, (f / (f - n)) * (1.0 - 1.0 / 3.0), "3*near")],
             1 | 2 | 3 | 4 => vec![(n, nd, "near"), (f, 1.0, "far")],
             _ => {
                 let e = if fam == 5 { eps } else { 0.0 };
